@@ -2,7 +2,7 @@
 import re
 
 from lib_facts import place_str, fn_name
-from lib_flow import strip_refs, sensitive_paths, is_inc_of
+from lib_flow import strip_refs, sensitive_paths, is_inc_of, PathEval, expr_calls
 from roles import direct_sites, callee_body, RE_STREAM_POLL_NEXT
 
 
@@ -64,25 +64,144 @@ def cursor_events(ctx, R, b):
                 ev.append(("REM", None, i))
             if bb in back_blocks:
                 ev.append(("BACK", None, i))
-        # kind of the value returned on this path
+        # kind of the value returned on this path (evaluated along the path: a value that reaches the return through a join,
+        # e.g. `Poll::Ready(item)` with `item` the verdict of an inlined helper, is what it is on THIS path)
         rk = None
-        for bb in reversed(path):
-            hit = False
-            for s_ in reversed(b.stmts(bb)):
-                if s_["k"] == "assign" and s_["place"]["l"] == 0 and not s_["place"]["p"]:
-                    rv = s_["rv"]
-                    if rv["k"] == "aggregate" and rv.get("adt") == "core::task::Poll":
-                        if rv["variant"] == "Pending":
-                            rk = "Pending"
-                        else:
-                            e_ = fl.rvalue_expr(rv, bb)
-                            rk = "None" if (e_[2][0][0] == "agg" and e_[2][0][1].endswith("Option::None")) else "Some"
-                    hit = True
-                    break
-            if hit:
-                break
+        r = PathEval(b, path).local_expr(0)
+        if r[0] == "agg" and r[1].endswith("Poll::Pending"):
+            rk = "Pending"
+        elif r[0] == "agg" and r[1].endswith("Poll::Ready") and r[2]:
+            x = r[2][0]
+            if x[0] == "agg" and x[1].endswith("Option::None"):
+                rk = "None"
+            elif x[0] == "agg" and x[1].endswith("Option::Some"):
+                rk = "Some"
+            else:
+                # the inner poll's own Option handed on: what that poll answered (the last P event of the path)
+                lastp = [e for e in ev if e[0] == "P"]
+                if lastp and any(c[3] == ibb for c in expr_calls(x)) and lastp[-1][1] in ("Some", "None"):
+                    rk = lastp[-1][1]
+                else:
+                    rk = "Some"
+        else:
+            lastp = [e for e in ev if e[0] == "P"]
+            if r[0] in ("call", "proj") and lastp and any(c[3] == ibb for c in expr_calls(r)):
+                rk = lastp[-1][1] if lastp[-1][1] in ("Some", "None", "Pending") else None     # the inner poll's result forwarded whole
         ev.append(("RET", rk, n))
         out.append((path, ev))
     return cur_field, out
 
 
+
+
+class _NoVal(Exception):
+    pass
+
+
+def _eval_nc(e, n, c, cur_field):
+    """Value of an expression over the number of groups n (Vec::len of the groups vector) and the cursor c."""
+    e = strip_refs(e)
+    if e[0] == "proj" and e[2] == (".0",) and e[1][0] == "binop" and e[1][1].endswith("WithOverflow"):
+        e = ("binop", e[1][1].replace("WithOverflow", ""), e[1][2], e[1][3])
+    if e[0] == "const":
+        try:
+            v = int(e[2])
+        except (TypeError, ValueError):
+            raise _NoVal()
+        return bool(v) if e[1] == "bool" else v
+    if e[0] == "proj" and e[2] and e[2][-1] == cur_field:
+        return c
+    if e[0] == "call" and re.search(r"alloc::vec::Vec::<.*>::len$|core::slice::<impl \[T\]>::len$", e[1] or ""):
+        return n
+    if e[0] == "call" and re.search(r"alloc::vec::Vec::<.*>::is_empty$|core::slice::<impl \[T\]>::is_empty$", e[1] or ""):
+        return n == 0
+    if e[0] == "binop":
+        a, b_ = _eval_nc(e[2], n, c, cur_field), _eval_nc(e[3], n, c, cur_field)
+        op = e[1].replace("Unchecked", "")
+        if op == "Sub":
+            if a < b_:
+                raise _NoVal()
+            return a - b_
+        if op == "Add":
+            return a + b_
+        if op in ("Eq", "Ne", "Lt", "Le", "Gt", "Ge"):
+            return {"Eq": a == b_, "Ne": a != b_, "Lt": a < b_, "Le": a <= b_, "Gt": a > b_, "Ge": a >= b_}[op]
+        if op == "BitAnd" and isinstance(a, bool):
+            return a and b_
+        if op == "BitOr" and isinstance(a, bool):
+            return a or b_
+    if e[0] == "unop" and e[1] == "Not":
+        v = _eval_nc(e[2], n, c, cur_field)
+        if isinstance(v, bool):
+            return not v
+    if e[0] == "call" and len(e[2]) == 2:
+        m = re.search(r"core::num::<impl usize>::(wrapping_sub|saturating_sub|checked_sub|wrapping_add|saturating_add)$", e[1] or "")
+        if m:
+            a, b_ = _eval_nc(e[2][0], n, c, cur_field), _eval_nc(e[2][1], n, c, cur_field)
+            if m.group(1).endswith("add"):
+                return a + b_
+            if m.group(1) == "saturating_sub":
+                return max(0, a - b_)
+            if a < b_:
+                raise _NoVal()
+            return a - b_
+    raise _NoVal()
+
+
+def arrival_grids(ctx, b, fl, ibb, tb, cur_field, grid=5):
+    """For every feasible path arriving at block tb after the inner poll at ibb: the set of points (n, cursor), 1 <= n <= grid,
+    0 <= cursor < n, that satisfy all evaluable edge conditions between that poll and tb.  -> [(path_prefix, {(n, c)})]"""
+    out = []
+    seen = set()
+    for kind, path, know in sensitive_paths(b, fl, 2):
+        for i, bb in enumerate(path):
+            if bb != tb or ibb not in path[:i]:
+                continue
+            j0 = max(j for j in range(i) if path[j] == ibb)
+            key = tuple(path[j0:i + 1])
+            if key in seen:
+                continue
+            seen.add(key)
+            conds = []
+            for j in range(j0, i):
+                t = b.term(path[j])
+                for lab in fl.edge_labels(path[j]).get(path[j + 1], []):
+                    if lab[0] == "bool":
+                        conds.append(("bool", lab[1], lab[2], None))
+                    elif lab[0] == "int":
+                        listed = [int(v) for v, _ in t.get("targets", []) if str(v).lstrip("-").isdigit()]
+                        conds.append(("int", lab[1], lab[2], listed))
+            sat = set()
+            for n in range(1, grid + 1):
+                for c in range(n):
+                    good = True
+                    for kind_, e, val, listed in conds:
+                        try:
+                            v = _eval_nc(e, n, c, cur_field)
+                        except _NoVal:
+                            continue
+                        if kind_ == "bool":
+                            if bool(v) is not val:
+                                good = False
+                        elif val is None:
+                            if int(v) in listed:
+                                good = False
+                        elif int(v) != int(val):
+                            good = False
+                    if good:
+                        sat.add((n, c))
+            out.append((path[:i + 1], sat))
+    return out
+
+
+def removal_never_of_last(ctx, b, fl, ibb, rbb, cur_field, grid=5):
+    """Every feasible arrival at the removal block rbb (a Vec::remove of groups[cursor] after the inner poll at ibb) carries
+    edge conditions over (number of groups, cursor) that exclude `cursor == len - 1`: the LAST group -- the largest allocation,
+    and the only group when len == 1 -- is never the one removed.  Decided per arriving path on the grid 1 <= n <= grid,
+    0 <= cursor < n.  -> (ok, detail)"""
+    ag = arrival_grids(ctx, b, fl, ibb, rbb, cur_field, grid)
+    for pth, sat in ag:
+        for (n, c) in sat:
+            if c == n - 1:
+                return False, "the removal is reachable with cursor == len - 1 (n=%d, cursor=%d): the last group can be removed" % (n, c)
+    return bool(ag), "%d arrivals; on each the edge conditions exclude cursor == len - 1" % len(ag)
